@@ -15,6 +15,8 @@ structure Leaves (K : Bus → Bus → Prop) : Prop where
   forget : ∀ b c, K b { b with pending := b.pending.filter fun p => !involves c p }
   /-- every pending reply times out -/
   expire : ∀ b, K b { b with pending := [] }
+  /-- some pending replies time out -/
+  expireSome : ∀ b (f : Pending → Bool), K b { b with pending := b.pending.filter f }
   acquire : ∀ t c n flags, t.bus.isActive c = true → K t.bus (acquire t c n flags).1.bus
   release : ∀ t c n, K t.bus (release t c n).1.bus
   removeOwner : ∀ t n c, K t.bus (removeOwner t n c).bus
@@ -405,6 +407,13 @@ theorem lv_step (L : Leaves K) (tbl : List IfaceRow) (b : Bus) (ev : Ev) : K b (
     exact L.trans _ _ _ (L.expire b)
       (lv_foldl L (fun (t : Tx) (p : Pending) => sendError t p.caller (fakeCall p.serial) .noReply)
         (fun t p => lv_sendError L t _ _ _) b.pending ({ bus := { b with pending := [] } } : Tx))
+  | expire due =>
+    show K b (expireWhere b (due.contains ·)).bus
+    unfold expireWhere
+    exact L.trans _ _ _ (L.expireSome b (fun p => !due.contains p))
+      (lv_foldl L (fun (t : Tx) (p : Pending) => sendError t p.caller (fakeCall p.serial) .noReply)
+        (fun t p => lv_sendError L t _ _ _) (b.pending.filter (due.contains ·))
+        ({ bus := { b with pending := b.pending.filter fun p => !due.contains p } } : Tx))
   | stall c on => exact L.setFull b _
 
 /-- a state predicate kept by every leaf is an invariant of all reachable states -/
